@@ -21,7 +21,7 @@ Proof. intros a b H. induction H; simpl; constructor; assumption. Qed.
 Section Build.
 Context {M : Type}.
 Variable prefix : M -> str.
-Variable pat : M -> N.
+Variable pat : M -> M -> bool.
 Variable realpath : str -> str.
 Variable with_locale : M -> M.
 Variable with_merge : M -> M.
@@ -219,12 +219,12 @@ Qed.
 (* ---- no rule is lost: a dropped matcher has a kept duplicate ------------------------------- *)
 Lemma dup_check_true : forall m m_,
   dup_check m m_ = POk true ->
-  realpath (prefix (m_l10n m)) = realpath (prefix (m_l10n m_)) /\ pat (m_l10n m) = pat (m_l10n m_).
+  realpath (prefix (m_l10n m)) = realpath (prefix (m_l10n m_)) /\ pat (m_l10n m) (m_l10n m_) = true.
 Proof.
   intros m m_. unfold ProjectFiles.dup_check.
   destruct (str_eqb _ _) eqn:E1; simpl; [|discriminate].
-  destruct (N.eqb _ _) eqn:E2; simpl; [|discriminate].
-  intros _. split; [apply pf_str_eqb_eq; exact E1 | apply N.eqb_eq; exact E2].
+  destruct (pat _ _) eqn:E2; simpl; [|discriminate].
+  intros _. split; [apply pf_str_eqb_eq; exact E1 | reflexivity].
 Qed.
 
 Lemma dup_check_core : forall a a' b b',
@@ -354,11 +354,11 @@ Qed.
 Lemma build_matchers_complete : forall locale hm cs ms r,
   build_matchers locale hm cs = POk ms -> In r (enabled_rules locale cs) ->
   exists m, In m ms /\
-    realpath (prefix (m_l10n m)) = realpath (prefix (with_locale (r_l10n r))) /\
-    pat (m_l10n m) = pat (with_locale (r_l10n r)) /\
     ((m_l10n m = with_locale (r_l10n r) /\ m_ref m = r_ref r /\ incl (r_test r) (m_test m)) \/
-     exists r', In r' (enabled_rules locale cs) /\
-                m_l10n m = with_locale (r_l10n r') /\ m_ref m = r_ref r').
+     (realpath (prefix (m_l10n m)) = realpath (prefix (with_locale (r_l10n r))) /\
+      pat (m_l10n m) (with_locale (r_l10n r)) = true /\
+      exists r', In r' (enabled_rules locale cs) /\
+                 m_l10n m = with_locale (r_l10n r') /\ m_ref m = r_ref r')).
 Proof.
   intros locale hm cs ms r H Hr. unfold ProjectFiles.build_matchers in H.
   destruct (configs_matchers locale hm cs) as [raw|] eqn:E; [|discriminate]. simpl in H.
@@ -378,13 +378,12 @@ Proof.
     destruct (Forall2_nth_error _ _ _ _ _ F2 H2) as [ma' [Ha' [D1 [D2 [D3 D4]]]]].
     apply dup_check_true in H4 as [P1 P2].
     exists ma'. split; [eapply remove_drops_keeps; eassumption|].
-    rewrite <- D1, <- G1. split; [exact P1|]. split; [exact P2|]. right.
+    right. rewrite <- D1, <- G1. split; [exact P1|]. split; [exact P2|].
     apply nth_error_In in H2. apply in_rev in H2.
     destruct (Forall2_In_r _ _ _ _ F1 H2) as [r' [Hr' Hm']].
     apply made_fields in Hm' as [K1 [K2 _]]. exists r'. repeat split; [exact Hr' | |]; congruence.
   - exists mb'. split; [eapply remove_drops_keeps; eassumption|].
-    rewrite <- C1, G1. split; [reflexivity|]. split; [reflexivity|]. left.
-    repeat split; try congruence. rewrite <- G3. exact C4.
+    left. repeat split; try congruence. rewrite <- G3. exact C4.
 Qed.
 
 (* ---- the first loop: which configurations take part ---------------------------------------- *)
@@ -473,11 +472,11 @@ Lemma build_complete : forall locale hm ps f r,
   build locale hm ps = POk f ->
   In r (enabled_rules locale (fst (gather locale ps [] []))) ->
   exists m, In m (pf_matchers f) /\
-    realpath (prefix (m_l10n m)) = realpath (prefix (with_locale (r_l10n r))) /\
-    pat (m_l10n m) = pat (with_locale (r_l10n r)) /\
     ((m_l10n m = with_locale (r_l10n r) /\ m_ref m = r_ref r /\ incl (r_test r) (m_test m)) \/
-     exists r', In r' (enabled_rules locale (fst (gather locale ps [] []))) /\
-                m_l10n m = with_locale (r_l10n r') /\ m_ref m = r_ref r').
+     (realpath (prefix (m_l10n m)) = realpath (prefix (with_locale (r_l10n r))) /\
+      pat (m_l10n m) (with_locale (r_l10n r)) = true /\
+      exists r', In r' (enabled_rules locale (fst (gather locale ps [] []))) /\
+                 m_l10n m = with_locale (r_l10n r') /\ m_ref m = r_ref r')).
 Proof.
   intros locale hm ps f r H Hr. unfold ProjectFiles.build in H.
   destruct (gather locale ps [] []) as [configs excludes]. simpl in Hr.
